@@ -160,6 +160,27 @@ def findOffset (p : Posting) (plain : Bool) (limit : Option Nat) (idx r : Nat) :
     | some n => (p.corpus.drop byteOff).take n
   byteOff + advance left data - p.boundaries.getD idx 0
 
+/-! ## verification of a substring candidate (`candidateMatch.matchContent`), ASCII texts -/
+
+/-- `unicode.ToLower` / the `mb |= 0x20` of the fast path, on an ASCII byte: only 'A'..'Z' change -/
+def asciiLower (b : UInt8) : Nat := if 65 ≤ b.toNat ∧ b.toNat ≤ 90 then b.toNat + 32 else b.toNat
+
+/-- the ASCII fast path of `caseFoldingEqualsRunes(lower, mixed)`: `some matchTotal` when it returns `(matchTotal, true)`.
+    `lower` is the already lower-cased pattern as numbers. -/
+def foldEqASCII : List Nat → Bytes → Nat → Option Nat
+  | [], _, n => some n                      -- the loop ends with len(lower) == 0
+  | _ :: _, [], _ => none                   -- the content ran out: (matchTotal, false)
+  | lb :: lr, mb :: mr, n => if lb ≠ asciiLower mb then none else foldEqASCII lr mr (n + 1)
+
+/-- `candidateMatch.matchContent(content)` for ASCII pattern and content, candidate at byte offset `off`:
+    `some byteMatchSz` when it returns true. (Case-sensitive: the Go code slices `content[off:off+len]`, callers pass
+    in-range offsets; out of range is modelled as no match.) -/
+def matchContentASCII (pattern content : Bytes) (off : Nat) (caseSensitive : Bool) : Option Nat :=
+  if caseSensitive then
+    (if off + pattern.length ≤ content.length ∧ Bytes.slice content off (off + pattern.length) = pattern
+     then some pattern.length else none)
+  else foldEqASCII (pattern.map asciiLower) (content.drop off) 0
+
 /-! ## the reporting pipeline of `indexData.Search` for one document -/
 
 /-- line mode: `gatherMatches` then `fillMatches` -/
